@@ -324,8 +324,79 @@ fn shape_of(v: &Value) -> String {
     }
 }
 
+
+/// Sizes far beyond the enumerated ones: long texts, long and deep JSON documents, large maps.
+fn scale(w: &mut Worker) {
+    let sizes: Vec<usize> = w.tier.pick(vec![4095, 65537], vec![4095, 8192, 65537, 1_000_003]);
+    for &n in &sizes {
+        for variant in 0..2u8 {
+            // a text of n bytes built by doubling; variant 1 has a two-byte character across the middle
+            let mut text = format!("len = set 16\ns = set 0123456789abcdef\nwhile less_than ${{len}} {}\ns = set ${{s}}${{s}}\nlen = length ${{s}}\nend\n", n + 1);
+            if variant == 0 {
+                text.push_str(&format!("s = substring ${{s}} 0 {}\n", n));
+            } else {
+                let half = n / 2;
+                text.push_str(&format!("h1 = substring ${{s}} 0 {}\nh2 = substring ${{s}} 0 {}\ns = set ${{h1}}é${{h2}}\nh1 = set done\nh2 = set done\n", half - 1, n - half - 1));
+            }
+            text.push_str("b = string_to_bytes ${s}\nt = bytes_to_string ${b}\nsame_bytes = equals ${t} ${s}\ne = base64_encode ${b}\nel = length ${e}\nb2 = base64_decode ${e}\nt2 = bytes_to_string ${b2}\nsame_base64 = equals ${t2} ${s}\nrelease ${b}\nrelease ${b2}\ns = set done\nt = set done\nt2 = set done\ne = set done");
+            scale_case(
+                w,
+                &format!("long-text bytes {} variant {}", n, variant),
+                &text,
+                &[("same_bytes", Some("true".into())), ("same_base64", Some("true".into())), ("el", Some((n.div_ceil(3) * 4).to_string()))],
+            );
+        }
+    }
+    let counts: Vec<usize> = w.tier.pick(vec![10, 300], vec![10, 300, 3000, 30000]);
+    for &n in &counts {
+        // a flat array of n numbers and an object of n members
+        let arr = format!("[{}]", (1..=n).map(|i| i.to_string()).collect::<Vec<_>>().join(","));
+        let arr_norm = format!("[{}]", (1..=n).map(|i| format!("\"{}\"", i)).collect::<Vec<_>>().join(","));
+        let text = format!(
+            "{}\nh = json_parse --collection ${{doc}}\nn = array_length ${{h}}\nout = json_encode --collection ${{h}}\nsame = equals ${{out}} ${{want}}\nrelease -r ${{h}}\ndoc = set done\nout = set done\nwant = set done",
+            [crate::render::line(Some("doc"), "set", &[&arr]), crate::render::line(Some("want"), "set", &[&arr_norm])].join("\n")
+        );
+        scale_case(w, &format!("long-json-array items {}", n), &text, &[("n", Some(n.to_string())), ("same", Some("true".into()))]);
+        let obj = format!("{{{}}}", (1..=n).map(|i| format!("\"k{}\":{}", i, i)).collect::<Vec<_>>().join(","));
+        let text = format!(
+            "{}\nh = json_parse --collection ${{doc}}\nn = map_size ${{h}}\nfirst = map_get ${{h}} k1\nlast = map_get ${{h}} k{}\nout = json_encode --collection ${{h}}\nh2 = json_parse --collection ${{out}}\nn2 = map_size ${{h2}}\nlast2 = map_get ${{h2}} k{}\nrelease -r ${{h}}\nrelease -r ${{h2}}\ndoc = set done\nout = set done",
+            crate::render::line(Some("doc"), "set", &[&obj]),
+            n,
+            n
+        );
+        scale_case(
+            w,
+            &format!("wide-json-object members {}", n),
+            &text,
+            &[("n", Some(n.to_string())), ("first", Some("1".into())), ("last", Some(n.to_string())), ("n2", Some(n.to_string())), ("last2", Some(n.to_string()))],
+        );
+        // a map of n entries through the properties text and back
+        let text = format!(
+            "m = map\ni = set 0\nwhile less_than ${{i}} {n}\ni = calc ${{i}} + 1\nmap_put ${{m}} key.${{i}} \"value ${{i}} \"\nend\ntext = map_to_properties ${{m}}\nm2 = map\nmap_load_properties ${{m2}} ${{text}}\nn2 = map_size ${{m2}}\nfirst = map_get ${{m2}} key.1\nlast = map_get ${{m2}} key.{n}\nrelease ${{m}}\nrelease ${{m2}}\ntext = set done",
+            n = n
+        );
+        scale_case(
+            w,
+            &format!("large-properties entries {}", n),
+            &text,
+            &[("n2", Some(n.to_string())), ("first", Some("value 1 ".into())), ("last", Some(format!("value {} ", n)))],
+        );
+    }
+    // deep nesting
+    let depths: Vec<usize> = w.tier.pick(vec![10, 60], vec![10, 60, 120]);
+    for &d in &depths {
+        let doc = format!("{}\"x\"{}", "[".repeat(d), "]".repeat(d));
+        let text = format!(
+            "{}\nh = json_parse --collection ${{doc}}\nout = json_encode --collection ${{h}}\nsame = equals ${{out}} ${{doc}}\nrelease -r ${{h}}",
+            crate::render::line(Some("doc"), "set", &[&doc])
+        );
+        scale_case(w, &format!("deep-json-array depth {}", d), &text, &[("same", Some("true".into()))]);
+    }
+}
+
 pub fn worker(w: &mut Worker) {
     let tier = w.tier;
+    scale(w);
     let mut s = Session::new();
     macro_rules! run {
         ($cj:expr, $nt:expr, $class:expr, $body:expr) => {{
@@ -443,6 +514,9 @@ pub fn worker(w: &mut Worker) {
 }
 
 pub fn replay(case: &Value) -> Result<String, String> {
+    if let Some(r) = scale_replay(case) {
+        return r;
+    }
     let mut s = Session::new();
     let r = match case["kind"].as_str().unwrap_or("") {
         "text" => text_roundtrip(&mut s, case["text"].as_str().unwrap_or("")),
